@@ -29,7 +29,7 @@ using namespace verif;
 namespace AI = AIToolbox;
 namespace M = AIToolbox::MDP;
 
-static const long kFixed = 8;
+static const long kFixed = 10;
 
 long verif::verif_ncases(const std::string & tier) { return kFixed + (tier == "thorough" ? 9000 : 640); }
 
@@ -201,6 +201,10 @@ static void case_td(Rng & rng, TD L, int mode, const std::string & tier, const P
 enum TR { SARSAL_, CQL, CRETRACE, CTB, CIS, EQL, ERETRACE, ETB, EIS };
 static const char * trName[] = {"sarsal", "c-ql", "c-retrace", "c-tb", "c-is", "e-ql", "e-retrace", "e-tb", "e-is"};
 
+// deterministic MDP whose optimal Q-function is `init` by construction (used by the fixed-point clause)
+struct Star { bool on = false; std::vector<std::vector<size_t>> next; M::QFunction R, q; };
+static Star g_star;
+
 template <class Learner>
 static void run_tr(Line & l, Learner & lr, Rng & rng, const Params & p, const AI::Matrix2D & behav, bool sarsal) {
     int n = p.maxSteps; l << n;
@@ -209,6 +213,10 @@ static void run_tr(Line & l, Learner & lr, Rng & rng, const Params & p, const AI
         Exp e = gen.next(rng, p);
         // the action taken must be possible under the behaviour policy (its probability is a divisor)
         if (behav(e.s, e.a) <= 0.0) for (size_t a = 0; a < p.A; ++a) if (behav(e.s, a) > 0.0) { e.a = a; break; }
+        if (g_star.on) {
+            e.s1 = g_star.next[e.s][e.a]; e.r = g_star.R(e.s, e.a);
+            long am; g_star.q.row(e.s1).maxCoeff(&am); e.a1 = (size_t)am;
+        }
         l << e.s << e.a << e.s1 << e.a1 << e.r;
         if constexpr (std::is_same_v<Learner, M::SARSAL>) lr.stepUpdateQ(e.s, e.a, e.s1, e.a1, e.r);
         else lr.stepUpdateQ(e.s, e.a, e.s1, e.r);
@@ -220,7 +228,7 @@ static void run_tr(Line & l, Learner & lr, Rng & rng, const Params & p, const AI
     (void)sarsal;
 }
 
-static void case_tr(Rng & rng, TR L, const std::string & tier, const Params * forced = nullptr, bool randomInit = true) {
+static void case_tr(Rng & rng, TR L, const std::string & tier, const Params * forced = nullptr, bool randomInit = true, bool star = false) {
     Params p = forced ? *forced : drawParams(rng, tier, true);
     if (!forced && rng.coin(1, 4)) p.lam = 0.0;
     if (!forced && p.maxSteps > 150) p.maxSteps = 150;
@@ -228,7 +236,24 @@ static void case_tr(Rng & rng, TR L, const std::string & tier, const Params * fo
     AI::Matrix2D pt = randPolicy(rng, S, A, false), pb = randPolicy(rng, S, A, rng.coin(2, 3));
     M::Policy target(pt), behaviour(pb);
     M::QFunction init = (randomInit && rng.coin()) ? randTable(rng, S, A, 4) : M::makeQFunction(S, A);
+    g_star.on = false;
+    if (star) {
+        if (p.ugly || p.g == 1.0) { p.g = 0.5; p.alpha = 0.25; p.lam = 0.5; p.tol = 0.0625; p.ugly = false; }
+        p.eps = 0.0;
+        init = randTable(rng, S, A, 8);
+        g_star.on = true; g_star.q = init; g_star.R = M::QFunction(S, A);
+        g_star.next.assign(S, std::vector<size_t>(A));
+        for (size_t s = 0; s < S; ++s) for (size_t a = 0; a < A; ++a) {
+            g_star.next[s][a] = rng.below(S);
+            g_star.R(s, a) = init(s, a) - p.g * init.row(g_star.next[s][a]).maxCoeff();
+        }
+    }
     double lam = (L == CIS || L == EIS) ? 1.0 : p.lam;
+    if (p.tol > 1.0) {
+        // a cut-off above one: either the (repaired) library rejects it, or the run goes ahead and the driver judges it
+        try { M::SARSAL probe(S, A, p.g, p.alpha, 0.5, p.tol); M::QL probe2(S, A, p.g, p.alpha, 0.5, p.tol, 0.0); }
+        catch (const std::invalid_argument &) { Line l; l << "C11" << "tolguard" << trName[L] << p.tol; l.emit(); return; }
+    }
     Line l; l << "C11" << "tr" << trName[L] << S << A << p.g << p.alpha << lam << p.tol << p.eps;
     putTable(l, pt); putTable(l, pb); putTable(l, init);
     switch (L) {
@@ -273,7 +298,7 @@ static void case_ps(Rng & rng, const std::string & tier) {
     for (auto [s, a] : order) { ps.stepUpdateQ(s, a); if (interleave && rng.coin()) ps.batchUpdateQ(); }
     long guard = 0;
     while (ps.getQueueLength() > 0 && guard++ < 200000) ps.batchUpdateQ();
-    M::ValueIteration vi(1000000, 1e-13);
+    M::ValueIteration vi(2000, 0.0);   // tolerance 0 = run the whole horizon; 0.875^2000 is far below one ulp
     auto [bound, vf, viQ] = vi(model);
     (void)bound; (void)vf;
     Line l; l << "C11" << "ps" << S << A << g << theta;
@@ -337,6 +362,9 @@ void verif::verif_case(Rng & rng, long idx, const std::string & tier) {
             case 5: { p.lam = 1.0; p.g = 1.0; p.tol = 1.0; case_tr(rng, CQL, tier, &p); break; }   // cut-off exactly one
             case 6: { p.lam = 0.5; p.g = 0.5; p.tol = 0.0625; case_tr(rng, ETB, tier, &p); break; }
             case 7: case_ps(rng, tier); break;
+            // witnesses of the known finding C11-trace-cutoff-above-one (setTolerance is unguarded)
+            case 8: { p.tol = 2.0; p.maxSteps = 3; case_tr(rng, SARSAL_, tier, &p, false); break; }
+            case 9: { p.tol = 2.0; p.maxSteps = 3; case_tr(rng, CQL, tier, &p, false); break; }
         }
         return;
     }
@@ -348,7 +376,8 @@ void verif::verif_case(Rng & rng, long idx, const std::string & tier) {
     else if (k == 14) case_td(rng, ESARSA_, 1, tier);
     else if (k == 15) case_td(rng, rng.coin() ? QL_ : (rng.coin() ? DQ_ : ESARSA_), 2, tier);   // arbitrary start
     else if (k < 25) case_tr(rng, (TR)(k - 16), tier);
-    else if (k < 28) case_tr(rng, (TR)rng.below(9), tier);
+    else if (k < 27) case_tr(rng, (TR)rng.below(9), tier);
+    else if (k == 27) case_tr(rng, (TR)rng.below(5), tier, nullptr, true, true);   // control learners / SARSA(lambda) at Q*
     else if (k < 31) case_ps(rng, tier);
     else case_dynab(rng, tier);
 }
